@@ -377,6 +377,7 @@ class SmtLibParser(object):
             '-': self._operator_adapter(self._minus_or_uminus),
             '*': self._operator_adapter(self.Times),
             '/': self._operator_adapter(self._division),
+            'div': self._operator_adapter(self._int_division),
             'pow': self._operator_adapter(mgr.Pow),
             '>': self._operator_adapter(self.GT),
             '<': self._operator_adapter(self.LT),
@@ -637,7 +638,17 @@ class SmtLibParser(object):
         if left.is_constant() and right.is_constant():
             return mgr.Real(Fraction(left.constant_value()) /
                             Fraction(right.constant_value()))
+        if left.get_type().is_int_type() and right.get_type().is_int_type():
+            # '/' is the division of Reals: integer operands are
+            # converted (the integer division is 'div')
+            return mgr.Div(mgr.ToReal(left), mgr.ToReal(right))
         return self.Div(left, right)
+
+    def _int_division(self, left: FNode, right: FNode) -> FNode:
+        """Utility function that builds an integer division (div)"""
+        if not (left.get_type().is_int_type() and right.get_type().is_int_type()):
+            raise PysmtSyntaxError("'div' expects integer arguments")
+        return self.env.formula_manager.Div(left, right)
 
     def _get_var(self, name: str, type_name: PySMTType) -> FNode:
         """Returns the PySMT variable corresponding to a declaration"""
